@@ -118,6 +118,31 @@ def run(tier):
             if len(f) > 2 and f[2] != "tools=ok":
                 bad += 1; ck.violation("invalid-ir:%s:%s" % (label, f[2].split(":")[0]), "LLVM tools reject the %s IR: %s" % (label, f[2]), src)
     ck.log("other accepted inputs checked by the tools: %d" % acc)
+    # the same through the real command line tool: what `penne run a.pn b.pn ...` hands to the interpreter
+    # is the linked program (main.rs, not the harness, drives the stages here)
+    from . import c18
+    ncli = 0
+    if c18.build_penne(ck):
+        import os, shutil, subprocess
+        root = os.path.join(ck.work, "cli"); shutil.rmtree(root, ignore_errors=True)
+        for cid, text in [o for o in others if o[0].startswith("m")][: (12 if tier == "quick" else 300)]:
+            d = os.path.join(root, cid); os.makedirs(d)
+            mods = C.split_modules(text)
+            for name, src in mods: open(os.path.join(d, name), "w").write(src)
+            c18.make_stub(d, "lli", "0")
+            env = dict(os.environ); env["PATH"] = d
+            p = subprocess.run([c18.PENNE, "run", "--color=never"] + [m[0] for m in mods], cwd=d, env=env, capture_output=True, timeout=120)
+            sp = os.path.join(d, "stdin.lli")
+            if p.returncode != 0 or not os.path.exists(sp): continue
+            ncli += 1
+            ir = open(sp).read()
+            q = C.sh("llvm-as -o - %s | opt -passes=verify -o /dev/null" % sp)
+            # private functions nothing refers to may be dropped by the linker: only main and public functions must be there
+            fnames = set(re.findall(r"^pub (?:extern )?fn (\w+)\(", text, re.M)) | ({"main"} if re.search(r"^fn main\(", text, re.M) else set())
+            missing = sorted(f for f in fnames if not re.search(r"^define [^\n]*@%s\(" % f, ir, re.M))
+            if q.returncode != 0 or missing:
+                bad += 1; ck.violation("invalid-ir:cli-linked", "the program `penne run` hands to the interpreter %s" % ("does not define " + ", ".join(missing) if missing else "is rejected by the LLVM tools: " + q.stderr.decode()[:200]), text)
+        ck.log("linked programs through the command line tool: %d" % ncli)
     from .. import cfgstream
     ncfg, cstats, csizes, cbad = cfgstream.run(ck, 300 if tier == "quick" else 20000, ck.seed + 3, tools=True)
     bad += cbad
@@ -125,7 +150,7 @@ def run(tier):
         ck.violation("tie-broken:proof", "Props/C03.v no longer checks", getattr(ck, "proof_output", "")[-2000:])
     ck.coverage.update(
         evaluations=len(progs) + len(others) + len(impl3) + ncfg, distinct_nontrivial=len(distinct) + acc,
-        rule="generated valid programs with random pub/extern flags, with and without main (never executed here, so UB and non-termination are included), extern heads; every accepted module and the linked program through llvm-as and opt -passes=verify; every source function must be defined/declared with the linkage and calling convention of the generated table; plus multi-module sets, accepted mutants of the corpus, and the wasm32 target; distinct = (flag set, IR attributes) pairs + accepted other inputs",
+        rule="generated valid programs with random pub/extern flags, with and without main (never executed here, so UB and non-termination are included), extern heads; every accepted module and the linked program through llvm-as and opt -passes=verify; every source function must be defined/declared with the linkage and calling convention of the generated table; plus multi-module sets (also through the real command line tool: the linked program handed to the interpreter must be valid and define main and every public function), accepted mutants of the corpus, inputs that once produced invalid IR, and the wasm32 target; distinct = (flag set, IR attributes) pairs + accepted other inputs",
         stats=dict(stats), problems=bad, other_accepted=acc, cfg_skeletons=ncfg, cfg_stats=dict(cstats), cfg_block_counts=dict(csizes),
         cfg_rule="random accepted control-flow skeletons (goto, conditional goto, labels, nested blocks, if/else chains, loops with exits; distinct constants identify actions and conditions): the blocks of the emitted IR in creation order must be exactly Model/Cfg.v's (base names, actions per block, terminators, targets), and llvm-as + opt verify must accept them",
         samples=[dict(source=progs[0][1][:500], expect=progs[0][2], tools=impl.get(progs[0][0], ["?"] * 3)[2])])
